@@ -17,7 +17,7 @@ RULE = ('seeded histories over 2-4 instances of 1-2 classes built with MetaThrea
 ASSUMPTIONS = ['no schedule dimension: threads take turns statement by statement (interleavings inside a statement are C27\'s subject)']
 PROBES = ['read_after_foreign_write', 'instance_replaced', 'instance_copied']
 PLAN = {
-  'quick': {'strata': {'instances': 4000}, 'wall_s': 300, 'chunk': 100, 'min_conclusive': 1000},
+  'quick': {'strata': {'instances': 8000}, 'wall_s': 300, 'chunk': 100, 'min_conclusive': 1000},
   'thorough': {'strata': {'instances': 80000}, 'wall_s': 600, 'chunk': 250, 'min_conclusive': 1000},
 }
 
